@@ -90,7 +90,7 @@ Proof.
   apply is_dig_range in Hc.
   unfold report_number.
   replace (c =? 45) with false by lia. replace (c =? 43) with false by lia.
-  cbn [orb negb andb]. rewrite (parse_uint_value _ Hd). cbv zeta.
+  cbn [orb negb andb]. cbv zeta. cbn iota. rewrite (parse_uint_value _ Hd).
   destruct (dec_value (c :: r) <? 18446744073709551616) eqn:E1.
   - destruct (dec_value (c :: r) >? 9223372036854775807) eqn:E2.
     + replace (dec_value (c :: r) <? 9223372036854775808) with false by lia.
@@ -101,17 +101,27 @@ Proof.
 Qed.
 Print Assumptions report_number_nonneg.
 
-(* negative literals -d1..dn *)
-Theorem report_number_neg pf s ds : all_digits ds = true ->
+(* a sign without digits ("-", "+") is no number (strconv.ParseInt reports a syntax error;
+   before the repair of reportNumber the lone sign was delivered as the integer 0) *)
+Theorem report_number_lone_sign pf s c : c = 45 \/ c = 43 ->
+  report_number pf s [c] false = Some (s, jeGeneric).
+Proof. intros [-> | ->]; reflexivity. Qed.
+Print Assumptions report_number_lone_sign.
+
+(* negative literals -d1..dn, n >= 1 *)
+Theorem report_number_neg pf s ds : ds <> [] -> all_digits ds = true ->
   report_number pf s (45 :: ds) false =
   let z := dec_value ds in
   if z <=? 9223372036854775808 then int_report s KInt64 (- z)
   else Some (s, jeGeneric).
 Proof.
-  intros Hd. pose proof (dec_value_nonneg _ Hd) as Hnn.
+  intros Hne Hd. pose proof (dec_value_nonneg _ Hd) as Hnn.
   unfold report_number.
   replace (45 =? 45) with true by reflexivity. replace (45 =? 43) with false by reflexivity.
-  cbn [orb negb andb]. rewrite (parse_uint_value _ Hd). cbv zeta.
+  cbn [orb negb andb]. cbv zeta.
+  match goal with |- match ds with [] => _ | _ :: _ => ?x end = _ =>
+    transitivity x; [destruct ds; [congruence|reflexivity]|] end.
+  rewrite (parse_uint_value _ Hd).
   destruct (dec_value ds <? 18446744073709551616) eqn:E1.
   - destruct (dec_value ds >? 9223372036854775808) eqn:E2.
     + replace (dec_value ds <=? 9223372036854775808) with false by lia. reflexivity.
@@ -149,7 +159,7 @@ Proof.
       * replace ((-9223372036854775808 <=? dec_value (c :: r)) && true) with true by lia.
         rewrite E1. reflexivity.
       * rewrite andb_false_r. reflexivity.
-  - rewrite (report_number_neg pf s ds Hd). cbv zeta.
+  - rewrite (report_number_neg pf s ds Hne Hd). cbv zeta.
     pose proof (dec_value_nonneg _ Hd) as Hnn.
     unfold json_num_value, int_value. replace (45 =? 45) with true by reflexivity.
     unfold int_kind.
